@@ -26,11 +26,13 @@ pub fn replay(id: &str, hist: &[Json]) -> Json {
 fn build(hist: &[Json]) -> (Module, FunctionId) {
     {
         let mut m = Module::default();
-        let p0 = m.locals.add(ValType::I32);
+        // allocation order differs from slot order on purpose: a scratch local first, the parameters last and reversed
         let a = m.locals.add(ValType::I32);
+        let p1 = m.locals.add(ValType::I32);
         let b = m.locals.add(ValType::I64);
         let _unused = m.locals.add(ValType::F32);
-        let mut fb = FunctionBuilder::new(&mut m.types, &[ValType::I32], &[]);
+        let p0 = m.locals.add(ValType::I32);
+        let mut fb = FunctionBuilder::new(&mut m.types, &[ValType::I32, ValType::I32], &[]);
         let mut real: Vec<InstrSeqId> = vec![fb.func_body_id()];
         for e in hist {
             let op = e["op"].as_str().unwrap();
@@ -45,6 +47,7 @@ fn build(hist: &[Json]) -> (Module, FunctionId) {
                     let (i1, i2): (Instr, Instr) = match e["kind"].as_str().unwrap() {
                         "set32" => (Const { value: Value::I32(v as i32) }.into(), LocalSet { local: a }.into()),
                         "set64" => (Const { value: Value::I64(v) }.into(), LocalSet { local: b }.into()),
+                        "getq" => (LocalGet { local: p1 }.into(), Drop {}.into()),
                         _ => (LocalGet { local: p0 }.into(), Drop {}.into()),
                     };
                     if at_end(&mut fb, s) {
@@ -123,7 +126,7 @@ fn build(hist: &[Json]) -> (Module, FunctionId) {
                 _ => {}
             }
         }
-        let f = fb.finish(vec![p0], &mut m.funcs);
+        let f = fb.finish(vec![p0, p1], &mut m.funcs);
         m.exports.add("f", f);
         (m, f)
     }
